@@ -30,7 +30,7 @@
 //	rawsort nodes=.. e=a>b,..       the real TopSortDFS on an arbitrary graph (6 runs)                        -> cyclic|ok sizes=..
 //
 // Oracle keys (impl-side, independent of the model): order-violates-dependency, order-violates-antidependency,
-// order-not-permutation, graph-misses-dependency, graph-misses-antidependency, order-not-replayable,
+// order-not-permutation, graph-misses-dependency, graph-misses-antidependency, graph-admits-unreplayable-order, order-not-replayable,
 // packed-block-not-replayable, replica-state-differs, award-not-first, award-invalid, award-count, fee-wrong,
 // block-verify-failed, block-<stage>-failed, producer-confirm-failed, producer-play-failed, pack-failed,
 // pool-membership, pool-order-failed, topsort-cycle-flag-wrong, topsort-unstable, panic.
@@ -40,9 +40,9 @@ import (
 	"fmt"
 	"io/ioutil"
 	"os"
-	"strings"
 	"path/filepath"
 	"sort"
+	"strings"
 
 	"xv/kvmem"
 	"xv/xvlib"
@@ -106,7 +106,7 @@ func main() {
 	ncases := 400
 	nsize := 4
 	if args.Tier == "thorough" {
-		nraw, ncases, nsize = 40000, 2000, 30
+		nraw, ncases, nsize = 60000, 5000, 60
 	}
 	if n := xvlib.EnvInt("XV_CASES", 0); n > 0 {
 		ncases = n
